@@ -85,7 +85,7 @@ func (p c09) RunBatch(ctx *core.Ctx, batch int) {
 		}
 	default:
 		r := ctx.Rand("deep")
-		leaves := append(qt.FullLeaves(), qt.HostileLeaves(r, gen.ValueDict(r, 80), 24, true)...)
+		leaves := append(append(qt.FullLeaves(), qt.ExtraLeaves()...), qt.HostileLeaves(r, gen.ValueDict(r, 80), 24, true)...)
 		for i := 0; i < 800; i++ {
 			t := qt.RandomTree(r, leaves, 2+r.Intn(4))
 			if t.Size() > 30 {
